@@ -254,6 +254,9 @@ func (x *Exec) setComp(st *State, fam string, root types.Type, j int, t *Term) {
 	st.heap[k] = v
 	x.recordWrite(st, k, t)
 	x.frameWrite(st, k, t)
+	if t.Op == "store" {
+		x.guardAccess(st, t.Args[1], true)
+	}
 }
 
 // writeSet records, during a dry run of a loop body, which heap components are written and at which
